@@ -59,7 +59,9 @@ class Scenario:
                 self.twins = True
         self.specs = specs
         dotted, self.mname = plugsynth.make_module(self.world, specs)
-        custom = dict(BUILTINS, APP_ROOT='/app', PLUGINS=dotted, POLL_TIMER=1000, SERVICE_SECURE='False')
+        # the configured plugins are a sequence of dotted names: a list, or just as well a tuple
+        custom = dict(BUILTINS, APP_ROOT='/app', PLUGINS=tuple(dotted) if recipe.get('plugins_as') == 'tuple' else dotted,
+                      POLL_TIMER=1000, SERVICE_SECURE='False')
         if recipe.get('python_plugin_off'):
             custom['PLUGIN_PYTHONPLUGIN'] = 'False'
         for i, p in enumerate(recipe['plugins']):
@@ -179,6 +181,7 @@ class C20(Prop):
             'all_placements': st.just(tier != 'quick'),
             # what the failing callback raises: an ordinary error, or the plugins' own "cannot work here" exception
             'fault_kind': st.sampled_from(['E', 'E', 'D']),
+            'plugins_as': st.sampled_from(['list', 'list', 'list', 'tuple']),
         })
 
     def run_case(self, recipe):
